@@ -71,15 +71,31 @@ fn relate<K: Fam>(a: &Enr<K>, sa: &Snap, b: &Enr<K>, sb: &Snap, st: &mut Stats) 
 
 impl<'a> Visitor for V<'a> {
     fn step<K: Fam>(&mut self, cx: &StepCx<K>) -> Result<(), String> {
-        if self.stop || !cx.res.is_ok() {
+        if self.stop || matches!(cx.res, crate::exec::CallRes::Panic(_) | crate::exec::CallRes::DecodeErr(_)) {
             return Ok(());
         }
         let (post, enr) = match (cx.post, cx.enr) {
             (Some(p), Some(e)) => (p, e),
             _ => return Ok(()),
         };
+        if !cx.res.is_ok() {
+            // the record the caller still holds after a failed call takes part in the relations too
+            // (it must still be coherent with the records collected before the call)
+            let r = enr.clone();
+            let d = describe_step(cx);
+            for (old, so, _) in &self.recs {
+                let old = old.downcast_ref::<Enr<K>>().expect("same family throughout a history");
+                if relate::<K>(old, so, &r, post, self.st).map_err(|m| format!("{d} (record after the failed call): {m}"))? {
+                    self.nontrivial = true;
+                }
+            }
+            if self.recs.len() < 40 {
+                self.recs.push((Box::new(r), post.clone(), "after-failed-call"));
+            }
+            return Ok(());
+        }
         let fam = cx.fam();
-        if fam == FamId::CombinedEd && secp_valid_entry(&post.pairs) && !crate::engine::strict() && crate::engine::is_known(crate::props::c05::KNOWN_COMBINED_ED) {
+        if known_combined_state(fam, post) && !crate::engine::strict() && crate::engine::is_known(crate::props::c05::KNOWN_COMBINED_ED) {
             self.st.known(crate::props::c05::KNOWN_COMBINED_ED);
             self.stop = true;
             return Ok(());
@@ -179,7 +195,7 @@ impl Property for C15 {
         vec![("history", 5000)]
     }
     fn gen(&self, c: &mut Choices) -> Case {
-        Case::Hist(history::gen_history(c, None))
+        Case::Hist(history::gen_history_cross(c))
     }
     fn check(&self, case: &Case, st: &mut Stats) -> Result<(), String> {
         let h = match case {
